@@ -220,6 +220,7 @@ def main(run):
             cfg["imputer"] = rnd.choice(["joint", "product", "default"])
         if cfg["storage"][0] == "library-default":
             cfg["storage"] = ("uniform", 5, False)
+        cfg["manual_updates"] = False           # (the storage snapshot is taken right before each step)
         seed = rnd.randrange(2 ** 31)
         try:
             sc = Scenario(cfg, seed)
